@@ -22,55 +22,132 @@ func supply() int {
 	return r.(int)
 }
 
-// C01/C02: two funded accounts, then one public transfer with symbolic direction, amount and signer.
-func VerifC01Transfer() {
+// applyEvents replays the Transfer notifications of the last transaction on a pre-balance.
+func applyEvents(acct []byte, pre int) int {
+	b := pre
+	for _, ev := range vEvents("balance", "Transfer") {
+		amount := ev[2].(int)
+		if vEq(ev[0].([]byte), acct) {
+			b -= amount
+		}
+		if vEq(ev[1].([]byte), acct) {
+			b += amount
+		}
+	}
+	return b
+}
+
+// eventsPaired: one TransferX per Transfer, same from/to/amount, same order.
+func eventsPaired() bool {
+	t, x := vEvents("balance", "Transfer"), vEvents("balance", "TransferX")
+	if len(t) != len(x) {
+		return false
+	}
+	ok := true
+	for i := range t {
+		if !vEq(t[i][0].([]byte), x[i][0].([]byte)) || !vEq(t[i][1].([]byte), x[i][1].([]byte)) || t[i][2].(int) != x[i][2].(int) {
+			ok = false
+		}
+	}
+	return ok
+}
+
+// C01/C02: from a state built through the API (two funded accounts, one live lock), ONE fully symbolic
+// operation: method = vParam(0), all arguments and the signer set symbolic.
+//
+//	0 transfer (public; address lengths vParam(1), vParam(2))  1 transferX  2 mint  3 burn  4 lock  5 newEpoch
+func VerifC01Op() {
+	op, flen, tlen := vParam(0), vParam(1), vParam(2)
 	deployBalanceWorld()
-	a0 := vAcct("a0")
-	a1 := vAcct("a1")
-	thief := vAcct("thief")
-	x0 := vInt("x0")
-	x1 := vInt("x1")
-	vAssume(x0 >= 0)
-	vAssume(x1 >= 0)
+	a0, a1, lk, thief := vAcct("a0"), vAcct("a1"), vAcct("lk"), vAcct("thief")
+	x0, x1, y, until := vInt("x0"), vInt("x1"), vInt("y"), vInt("until")
+	vAssume(x0 >= 0 && x1 >= 0 && y >= 0 && y <= x0)
+	vAssume(until >= 1 && until <= 1000)
 	vAssume(mint(a0, x0))
 	vAssume(mint(a1, x1))
+	vSign(vAlphabetAcct(), true)
+	ok, _ := vInvoke("balance", "lock", []byte{1}, a0, lk, y, until)
+	vAssume(ok)
 
-	var from, to, signer []byte
-	fromIsA0 := vBool("fromIsA0")
-	if fromIsA0 {
-		from = a0
-	} else {
-		from = a1
-	}
-	if vBool("toIsA0") {
-		to = a0
-	} else {
-		to = a1
-	}
-	ownerSigns := vBool("ownerSigns")
-	if ownerSigns {
-		signer = from
-	} else {
-		signer = thief
-	}
+	from, to := vBytes("from", flen), vBytes("to", tlen)
 	amt := vInt("amt")
-
-	pre0 := balOf(a0)
-	pre1 := balOf(a1)
-	vSign(signer, true)
-	ok, res := vInvoke("balance", "transfer", from, to, amt, nil)
-	post0 := balOf(a0)
-	post1 := balOf(a1)
-	sup := supply()
-
-	if ok && res.(bool) {
-		vCover("transfer-succeeded")
-	} else {
-		vAssert(post0 == pre0 && post1 == pre1, "C01/refusal-changes-nothing")
+	alpha, s0, s1 := vBool("alphabetSigns"), vBool("a0Signs"), vBool("a1Signs")
+	fresh := !vEq(to, a0) && !vEq(to, a1) && !vEq(to, lk)
+	if op == 4 {
+		vAssume(fresh) // lock targets are fresh addresses, as the Inner Ring constructs them
 	}
-	vAssert(post0 >= 0 && post1 >= 0, "C01/non-negative")
-	vAssert(post0+post1 == sup, "C01/sum-equals-supply")
-	vAssert(sup == x0+x1, "C01/supply-only-by-mint-burn")
-	vAssert(post0 >= pre0 || (fromIsA0 && ownerSigns), "C02/debit-a0-authorised")
-	vAssert(post1 >= pre1 || (!fromIsA0 && ownerSigns), "C02/debit-a1-authorised")
+
+	p0, p1, pl, pf, pt, psup := balOf(a0), balOf(a1), balOf(lk), balOf(from), balOf(to), supply()
+	vAssert(p0+p1+pl == psup && p0 >= 0 && p1 >= 0 && pl >= 0, "C01/setup-state-consistent")
+
+	vSign(vAlphabetAcct(), alpha)
+	vSign(a0, s0)
+	vSign(a1, s1)
+	vSign(thief, true)
+	var done bool
+	var res any
+	switch op {
+	case 0:
+		done, res = vInvoke("balance", "transfer", from, to, amt, nil)
+		if done && !res.(bool) {
+			done = false
+			vCover("transfer-refused-with-false")
+			vAssert(vEventCount() == 0, "C02/refused-transfer-emits-nothing")
+		}
+	case 1:
+		done, _ = vInvoke("balance", "transferX", from, to, amt, []byte{7})
+	case 2:
+		done, _ = vInvoke("balance", "mint", to, amt, []byte{7})
+	case 3:
+		done, _ = vInvoke("balance", "burn", from, amt, []byte{7})
+	case 4:
+		done, _ = vInvoke("balance", "lock", []byte{2}, from, to, amt, vInt("until2"))
+	case 5:
+		done, _ = vInvoke("balance", "newEpoch", amt)
+	}
+	q0, q1, ql, qf, qt, qsup := balOf(a0), balOf(a1), balOf(lk), balOf(from), balOf(to), supply()
+
+	if done {
+		vCover("operation-succeeded")
+	} else {
+		vCover("operation-refused")
+		vAssert(q0 == p0 && q1 == p1 && ql == pl && qf == pf && qt == pt && qsup == psup, "C01/refusal-changes-nothing")
+	}
+	// (i) no negative balance
+	vAssert(q0 >= 0 && q1 >= 0 && ql >= 0 && qf >= 0 && qt >= 0, "C01/non-negative")
+	// (ii) supply = sum over the distinct accounts that can hold anything
+	sum := q0 + q1 + ql
+	fromNew := !vEq(from, a0) && !vEq(from, a1) && !vEq(from, lk)
+	if fromNew {
+		sum += qf
+	}
+	if fresh && !vEq(to, from) {
+		sum += qt
+	}
+	vAssert(sum == qsup, "C01/sum-equals-supply")
+	// (iii) supply moves only by a successful mint/burn, by the amount
+	switch {
+	case done && op == 2:
+		vAssert(qsup == psup+amt, "C01/mint-adds-amount-to-supply")
+	case done && op == 3:
+		vAssert(qsup == psup-amt, "C01/burn-removes-amount-from-supply")
+	default:
+		vAssert(qsup == psup, "C01/supply-only-by-mint-burn")
+	}
+	// (v) the notification stream reproduces every balance; Transfer and TransferX come in pairs
+	vAssert(applyEvents(a0, p0) == q0 && applyEvents(a1, p1) == q1 && applyEvents(lk, pl) == ql &&
+		applyEvents(from, pf) == qf && applyEvents(to, pt) == qt, "C01/notifications-reproduce-balances")
+	vAssert(eventsPaired(), "C01/one-TransferX-per-Transfer")
+	if done && op <= 4 {
+		vAssert(len(vEvents("balance", "Transfer")) == 1, "C01/exactly-one-Transfer-per-successful-transfer")
+	}
+
+	// C02: a balance may go down only with the holder's witness or the Alphabet's (Alphabet methods)
+	alphaOp := alpha && op != 0
+	vAssert(q0 >= p0 || alphaOp || (s0 && op == 0 && vEq(from, a0)), "C02/debit-a0-authorised")
+	vAssert(q1 >= p1 || alphaOp || (s1 && op == 0 && vEq(from, a1)), "C02/debit-a1-authorised")
+	vAssert(ql >= pl || alphaOp, "C02/debit-lock-account-authorised")
+	if op != 0 {
+		vAssert(alpha || !done, "C02/alphabet-methods-need-alphabet")
+	}
 }
